@@ -15,23 +15,54 @@ Section PhaseRel.
   Hypothesis R_refl : forall s, R s s.
   Hypothesis R_trans : forall a b c, R a b -> R b c -> R a c.
 
+  (* the handler hypothesis is needed only for the contexts of the list *)
+  Lemma fold_expire_rel_on l :
+    (forall s c, In c l -> Inv cfg s -> In (height s, c) (expq s) -> height s < HEIGHT_BOUND ->
+       R s (expire_one cfg s c)) ->
+    forall s, Inv cfg s -> height s < HEIGHT_BOUND -> NoDup l ->
+      (forall c, In c l -> In (height s, c) (expq s)) ->
+      R s (fold_left (expire_one cfg) l s).
+  Proof.
+    induction l as [|a l IH]; intros Hone s Hi Hb Hn Hl; cbn [fold_left]; [apply R_refl|].
+    inversion Hn as [|? ? Hna Hn']; subst.
+    assert (Hda : In (height s, a) (expq s)) by (apply Hl; now left).
+    pose proof (Inv_expire_one cfg s a Hcfg Hi Hda Hb) as Hi1.
+    pose proof (height_expire_one cfg s a Hcfg Hi Hda Hb) as Eh.
+    pose proof (expq_after_expire_one cfg s a Hcfg Hi Hda Hb) as Eq.
+    apply (R_trans _ (expire_one cfg s a)); [apply Hone; try assumption; now left|].
+    apply IH; try assumption.
+    - intros s0 c Hc. apply Hone. now right.
+    - now rewrite Eh.
+    - intros c Hc. rewrite Eh. apply Eq. split; [apply Hl; now right|]. intros ->. contradiction.
+  Qed.
+
+  Lemma fold_new_rel_on l :
+    (forall s c, In c l -> Inv cfg s -> In (height s, c) (newq s) -> height s < HEIGHT_BOUND ->
+       R s (new_one cfg s c)) ->
+    forall s, Inv cfg s -> height s < HEIGHT_BOUND -> NoDup l ->
+      (forall c, In c l -> In (height s, c) (newq s)) ->
+      R s (fold_left (new_one cfg) l s).
+  Proof.
+    induction l as [|a l IH]; intros Hone s Hi Hb Hn Hl; cbn [fold_left]; [apply R_refl|].
+    inversion Hn as [|? ? Hna Hn']; subst.
+    assert (Hda : In (height s, a) (newq s)) by (apply Hl; now left).
+    pose proof (Inv_new_one cfg s a Hcfg Hi Hda Hb) as Hi1.
+    pose proof (height_new_one cfg s a Hcfg Hi Hda Hb) as Eh.
+    pose proof (newq_after_new_one cfg s a Hcfg Hi Hda Hb) as Eq.
+    apply (R_trans _ (new_one cfg s a)); [apply Hone; try assumption; now left|].
+    apply IH; try assumption.
+    - intros s0 c Hc. apply Hone. now right.
+    - now rewrite Eh.
+    - intros c Hc. rewrite Eh. apply Eq. split; [apply Hl; now right|]. intros ->. contradiction.
+  Qed.
+
   Lemma fold_expire_rel :
     (forall s c, Inv cfg s -> In (height s, c) (expq s) -> height s < HEIGHT_BOUND ->
        R s (expire_one cfg s c)) ->
     forall l s, Inv cfg s -> height s < HEIGHT_BOUND -> NoDup l ->
       (forall c, In c l -> In (height s, c) (expq s)) ->
       R s (fold_left (expire_one cfg) l s).
-  Proof.
-    intros Hone. induction l as [|a l IH]; intros s Hi Hb Hn Hl; cbn [fold_left]; [apply R_refl|].
-    inversion Hn as [|? ? Hna Hn']; subst.
-    assert (Hda : In (height s, a) (expq s)) by (apply Hl; now left).
-    pose proof (Inv_expire_one cfg s a Hcfg Hi Hda Hb) as Hi1.
-    pose proof (height_expire_one cfg s a Hcfg Hi Hda Hb) as Eh.
-    pose proof (expq_after_expire_one cfg s a Hcfg Hi Hda Hb) as Eq.
-    apply (R_trans _ (expire_one cfg s a)); [apply Hone; assumption|]. apply IH; try assumption.
-    - now rewrite Eh.
-    - intros c Hc. rewrite Eh. apply Eq. split; [apply Hl; now right|]. intros ->. contradiction.
-  Qed.
+  Proof. intros Hone l. apply fold_expire_rel_on. intros s c _. apply Hone. Qed.
 
   Lemma fold_new_rel :
     (forall s c, Inv cfg s -> In (height s, c) (newq s) -> height s < HEIGHT_BOUND ->
@@ -39,17 +70,7 @@ Section PhaseRel.
     forall l s, Inv cfg s -> height s < HEIGHT_BOUND -> NoDup l ->
       (forall c, In c l -> In (height s, c) (newq s)) ->
       R s (fold_left (new_one cfg) l s).
-  Proof.
-    intros Hone. induction l as [|a l IH]; intros s Hi Hb Hn Hl; cbn [fold_left]; [apply R_refl|].
-    inversion Hn as [|? ? Hna Hn']; subst.
-    assert (Hda : In (height s, a) (newq s)) by (apply Hl; now left).
-    pose proof (Inv_new_one cfg s a Hcfg Hi Hda Hb) as Hi1.
-    pose proof (height_new_one cfg s a Hcfg Hi Hda Hb) as Eh.
-    pose proof (newq_after_new_one cfg s a Hcfg Hi Hda Hb) as Eq.
-    apply (R_trans _ (new_one cfg s a)); [apply Hone; assumption|]. apply IH; try assumption.
-    - now rewrite Eh.
-    - intros c Hc. rewrite Eh. apply Eq. split; [apply Hl; now right|]. intros ->. contradiction.
-  Qed.
+  Proof. intros Hone l. apply fold_new_rel_on. intros s c _. apply Hone. Qed.
 
   Hypothesis R_expire : forall s c, Inv cfg s -> In (height s, c) (expq s) ->
     height s < HEIGHT_BOUND -> R s (expire_one cfg s c).
